@@ -141,7 +141,7 @@ def run_check(mod, tier, update_expected=False, only=None, keep=False, verbose=F
         exp = expected.get('%s@%s' % (j.name, tier))
         if exp is None and not update_expected:
             undecided.append('%s: no committed obligation inventory' % j.name)
-        elif exp is not None:
+        elif exp is not None and not update_expected:
             for k, v in exp.items():
                 if inv.get(k, 0) < v:
                     undecided.append('%s: inventory shrank: %s %d < %d' % (j.name, k, inv.get(k, 0), v))
